@@ -519,11 +519,15 @@ class SInt(_SNum):
         return _CUR.branch(self.t != 0)
 
     def __repr__(self):
+        if self.v is None and getattr(_CUR, "opaque_format", False):
+            return "<int>"      # message formatting only: no need to enumerate values
         return repr(self.concretise())
 
     __str__ = __repr__
 
     def __format__(self, spec):
+        if self.v is None and getattr(_CUR, "opaque_format", False):
+            return "<int>"
         return format(self.concretise(), spec)
 
     def __round__(self, n=None):
@@ -667,6 +671,7 @@ class Explorer:
         self.pc = []
         self.steps = 0
         self.inputs = {}        # name -> z3 const (in declaration order)
+        self.opaque_format = False  # harness may set it: str()/format() of a symbolic int yields a placeholder
         self._keep = []         # keeps decided terms alive (z3 ids are reused after collection)
         self.decided = {}       # id of a branch condition decided on this path -> outcome
         self.radicals = {}      # radicand key -> value of its square root
